@@ -149,7 +149,9 @@ def literal(ptype, cls):
     if ptype == "float":
         return {"0": "0", "-0.0": "-0.0", "0.1": "0.1", "1e10": "1e10", "1e-4": "1e-4", "123456000000": "123456000000", "5e-324": "5e-324",
                 "1e999": "1e999", "-1e999": "-1e999", "hex": "0x10", "dot1": ".5", "1dot": "1.", "exp+": "1.5E+3", "16777217": "16777217",
-                "0.30000000000000004": "0.30000000000000004"}[cls]
+                "0.30000000000000004": "0.30000000000000004",
+                # doubles that are exactly representable as f32 but need 17 digits as f64 (values computed in f32 by other tools)
+                "f32exact": "0.10000000149011612", "f32exact2": "1.100000023841858", "f32exact_neg": "-2.5999999046325684"}[cls]
     if ptype == "string":
         return {"empty": '""', "ascii": '"plain text"', "esc_quote": r'"a \"quoted\" word"', "dbl_quote": '"a ""doubled"" quote"',
                 "esc_apos": r'"it\'s"', "esc_backslash": r'"back\\slash"', "esc_n": r'"line\nbreak"', "esc_r": r'"carriage\rreturn"',
